@@ -413,6 +413,11 @@ fn address_phase_universe(ctx: &Ctx) {
             s.set("comparisons", J::i(num("comparisons=")));
             l.sample(s);
         }
+        let nondet: Vec<&str> = text.lines().filter(|x| x.starts_with("PHASE-NONDET")).collect();
+        if !nondet.is_empty() {
+            l.violation("nondeterministic_on_long_maps", || format!("the same operation on the same map, executed twice in one process under the same heap placement, gives two results:\n{}", nondet.join("\n")));
+            return;
+        }
         if num("diffs=") > 0 {
             let lines: Vec<&str> = text.lines().filter(|x| x.starts_with("PHASE-DIFF")).collect();
             l.violation("address_dependent", || format!("results depend on where the heap places a buffer (alignment phase modulo 64 of every allocation >= 64 bytes):\n{}", lines.join("\n")));
